@@ -31,6 +31,11 @@ func init() {
 }
 
 func runC17(c *an.Ctx) {
+	// ---- C17-R6: builder wiring of the components this property rests on
+	c.Floor("C17-R6", 1)
+	builderWiring(c, "C17-R6", map[string][]string{
+		"initDNS|dnssvc.HandlersConfig": {"Handler"},
+	})
 	c.Floor("C17-R1", 1)
 	c.Floor("C17-R2", 4)
 	c.Floor("C17-R3", 3)
